@@ -147,7 +147,9 @@ Inductive xval := XQ (x : Qc) | XNonFinite | XUnmodelled.
 
 Definition qc_is0 (x : Qc) : bool := match Qnum x with Z0 => true | _ => false end.
 Definition is_int (x : Qc) : bool := Pos.eqb (Qden x) 1.
+(* integer exponents; beyond |n| = 1024 floats overflow/underflow for all but trivial bases: not modelled *)
 Definition qpow_z (x : Qc) (n : Z) : xval :=
+  if (1024 <? Z.abs n)%Z then XUnmodelled else
   if (0 <=? n)%Z then XQ (x ^ Z.to_nat n)
   else if qc_is0 x then XNonFinite else XQ (/ (x ^ Z.to_nat (- n))).
 
